@@ -1562,6 +1562,10 @@ M('C02', 'original defect: speigs declares the eigenvectors with the dtype of th
   "            U = zeros([a.legs[0]], dtype=V_flat.dtype, qtotal=charge_sector)  # complex for non-hermitian `a`", "            U = zeros([a.legs[0]], dtype=a.dtype, qtotal=charge_sector)",
   'DTYPE-wrapped-block')
 
+M('C02', 'original defect: from_ndarray compares block charges with the raw qtotal argument', NPC,
+  "            res.qtotal = detect_qtotal(data_flat, legcharges, cutoff)\n        qtotal = res.qtotal  # valid charges: block charges are compared with it below\n", "            res.qtotal = qtotal = detect_qtotal(data_flat, legcharges, cutoff)\n",
+  'CHARGE-valid-compare')
+
 # ---------------------------------------------------------------- C16 / C19
 M('C16', 'GMRES restart: relative residual norm used for normalisation (round-3 seed b)', KRY,
   """        self.total_error.append([npc.norm(self.rs[-1]) / self.b_norm])
